@@ -88,6 +88,7 @@ def build_xlate():
 
 def translate():
     exe = build_xlate()
+    os.makedirs(os.path.join(COQ, "Gen"), exist_ok=True)   # not under version control: absent in a fresh checkout
     rc, out, dt = run([exe, "-repo", REPO, "-out", os.path.join(COQ, "Gen")], timeout=120)
     missing = [l for l in out.splitlines() if "PATTERN-MISSING" in l or l.startswith("xlate:")]
     return rc == 0, missing, dt
